@@ -31,7 +31,7 @@ def _tool_hash():
         h.update(open(fn, "rb").read())
     # optional generator modules and the corpus files they read decide which programs exist: part of the key
     for fn in [os.path.join(pxvlib.VERIF, "tools", m + ".py") for m, _ in OPTIONAL_GENERATORS] + \
-            sorted(glob.glob(os.path.join(pxvlib.VERIF, "corpus", "C04", "*.jsonl"))):
+            sorted(glob.glob(os.path.join(pxvlib.VERIF, "corpus", "C04", "apps*.jsonl"))):
         if os.path.exists(fn):
             h.update(open(fn, "rb").read())
     return h.hexdigest()[:10]
@@ -120,7 +120,7 @@ def get_stage(R, keep_workspace=False):
         if not ok:
             raise RuntimeError("pavexc does not build with hooks on: " + out[-1500:])
         # drop stale stages / workspaces of other tree states
-        for p in glob.glob(os.path.join(SCRATCH, "stage-*.json")) + glob.glob(os.path.join(SCRATCH, "ws-*")):
+        for p in glob.glob(os.path.join(SCRATCH, "stage-*.json")) + glob.glob(os.path.join(SCRATCH, "runtime-*.json")) + glob.glob(os.path.join(SCRATCH, "ws-*")):
             if key not in p:
                 shutil.rmtree(p, ignore_errors=True) if os.path.isdir(p) else os.unlink(p)
         progs = build_programs(R)
